@@ -274,6 +274,7 @@ theorem kinv_apply {N : Nat} {s : State} (hI : Inv s) (hc : Clean s) (hord : Ord
       · intro j; by_cases c : j = i <;> simp [c]
       · intro j; by_cases c : j = i <;> simp [c]
     · exact h
+  | badRelease k => exact h
   | cancel i => simp [Ev.orderly] at ho
   | throw i x => simp [Ev.orderly] at ho
   | interrupt i x => simp [Ev.orderly] at ho
